@@ -2,8 +2,12 @@ package sessrun
 
 import (
 	"encoding/json"
+	"fmt"
+	"os"
+	"sync/atomic"
 	"testing"
 	"testing/synctest"
+	"time"
 
 	"verifharness/vt"
 )
@@ -14,12 +18,42 @@ func TestScenarios(t *testing.T) {
 	out := vt.MustCreate(t, "VERIF_OUT")
 	defer out.Close()
 	n := 0
+	// Watchdog on the wall clock (outside any bubble): a goroutine waiting for a sync.Mutex is not
+	// "durably blocked", so a virtual-time run in which such a goroutine sits behind back-pressure
+	// can never advance its clock. Such a scenario is reported and abandoned, never judged.
+	var cur atomic.Value
+	var started atomic.Int64
+	cur.Store("")
+	go func() {
+		for {
+			time.Sleep(2 * time.Second)
+			if st := started.Load(); st != 0 && time.Now().Unix()-st > int64(vt.EnvInt("VERIF_HANG_SEC", 150)) {
+				out.Emit(Event{Ev: "Hung", Err: cur.Load().(string), Off: -1})
+				out.Flush()
+				fmt.Println("HUNG", cur.Load().(string))
+				os.Exit(3)
+			}
+		}
+	}()
 	vt.ReadLines(t, "VERIF_IN", func(line []byte) {
 		sc := &Scenario{}
 		if err := json.Unmarshal(line, sc); err != nil {
 			t.Fatalf("bad scenario: %v", err)
 		}
 		n++
+		cur.Store(sc.ID)
+		started.Store(time.Now().Unix())
+		if sc.Realtime {
+			// sleeping while holding a mutex another goroutine wants (TCP fragmentation with maxSleepMs > 0)
+			// cannot run on a virtual clock: a mutex wait is not durably blocking
+			res := Run(sc)
+			out.Emit(Event{Ev: "Begin", Err: sc.ID, Ep: sc.Transport, N: n, Off: -1, Ok: !res.Stalled, Fate: res.Note})
+			for _, e := range res.Events {
+				out.Emit(e)
+			}
+			out.Flush()
+			return
+		}
 		synctest.Test(t, func(t *testing.T) {
 			// written from inside the bubble so that a leak panic still leaves the trace on disk
 			res := Run(sc)
